@@ -1,24 +1,33 @@
-US = ['env_fputs.0:40', '_ZN18TeamCityTestOutput12printEscapedEPKc.0:4']
-def ob(fn, unwind=34, timeout=240, bounds='', **kw):
-    d = {'fn': fn, 'unwind': unwind, 'timeout': timeout, 'bounds': bounds}
+US = ['set_up_run.0:4', 'words_init.0:19', 'words_init.1:19', 'word_of_token.0:12', 'txt_cat.0:15', 'body_stream.0:32',
+      'env_fputs.0:37',                                      # literals / stack buffers handed to fputs: longest literal has 35 characters
+      'env_fputs.1:4',                                       # heap strings handed to fputs: numbers of at most 2 digits (proved by the unwinding assertion)
+      '_ZN18TeamCityTestOutput12printEscapedEPKc.0:4']       # escaped texts: at most 2 characters (proved by the unwinding assertion)
+def ob(fn, unwind=14, timeout=900, bounds='', **kw):
+    d = {'fn': fn, 'unwind': unwind, 'timeout': timeout, 'bounds': bounds, 'unwindset': US, 'diff_runs': 200}
     d.update(kw)
     return d
 F = ('every text field (group, test name, test file, failing file, failure message) is 0..2 bytes over {a \' | [ ] LF CR}; '
-     'test line and failing line any value 0..63 (so inside / outside the test file and helper-function failures are all covered); '
-     'pass / fail / ignored symbolic per test; clock model stands still')
+     'test line and failing line any value 0..63 (failures inside / outside the test file and in helper functions are all covered); '
+     'clock model stands still (every duration 0)')
+K = ['passes', 'fails one check', 'is ignored']
 SPEC = {
     'property': 'C20',
-    'functions_of_interest': ['TeamCityTestOutput', 'TestRegistry11runAllTests', 'TestRegistry10endOfGroup', 'TestResult', 'ConsoleTestOutput'],
-    'assumptions': ['the run is produced by the real TestRegistry::runAllTests and TestResult over scripted shells: a scripted shell stands for the execution of the test body and reports one failure through UtestShell::addFailure (what a failing check does)',
-                    'the byte stream is captured at the PlatformSpecificFPuts seam and judged by a reader written from the TeamCity service-message rules',
-                    'vsnprintf: the directive model of engine/rt/env.c with decimal digits produced by comparison (numbers 0..99; larger is an engine error)',
-                    'KF_C20_1 / KF_C20_2 exclude the two findings reported for this property (test file name unescaped inside "TEST failed (...)"; empty group name never finished)'],
+    'functions_of_interest': ['TeamCityTestOutput', 'TestRegistry11runAllTests', 'TestRegistry10endOfGroup', 'TestResult', 'ConsoleTestOutput', 'TestOutput5print'],
+    'assumptions': ['the run is produced by the real TestRegistry::runAllTests and TestResult over scripted shells: a scripted shell stands for the execution of the test body and reports one failure through UtestShell::addFailure (what a failing check does); ignored tests are real IgnoredUtestShell objects',
+                    'the byte stream is taken at the PlatformSpecificFPuts seam and judged by a one-pass reader written from the TeamCity service-message rules (message syntax, |-escapes), which hands every message to a nesting/value checker',
+                    'vsnprintf: the directive model of engine/rt/env.c with decimal digits produced by comparison (numbers 0..99; anything larger is an engine error)',
+                    'requested-size red zones (ll2c --heapcheck) are off: SimpleString memory safety is property C13',
+                    'KF_C20_1 / KF_C20_2 exclude the two findings reported for this property (test file name unescaped inside "TEST failed (...)"; a group with an empty name is never finished); harness functions finding_testfile_unescaped / finding_empty_group demonstrate them'],
     'groups': [{
         'name': 'tc', 'wrapper': 'w20.cpp', 'harness': 'h20.c', 'config': {'heapcheck': False},
         'defines': ['-DKF_C20_1', '-DKF_C20_2'],
-        'obligations': [
-            ob('harness_escape_roundtrip', unwind=12, bounds='text of <= 4 bytes over the full byte range'),
-            ob('harness_stream_1', bounds='1 test; ' + F, unwindset=US),
-        ],
+        'obligations':
+            [ob('harness_escape_roundtrip', unwind=12, timeout=300, unwindset=[], bounds='printEscaped on any text of <= 4 bytes over the full byte range')] +
+            [ob('harness_stream_1_%d' % k, solver='kissat', bounds='run of 1 test that %s; ' % K[k] + F) for k in range(3)] +
+            [ob('harness_stream_2_00', tier='quick', bounds='run of 2 passing tests (same or different group decided by the symbolic names); ' + F)] +
+            [ob('harness_stream_2_%d%d' % (a, b), tier='thorough', timeout=3600, solver='kissat',
+                bounds='run of 2 tests (same or different group decided by the symbolic names): the first %s, the second %s; ' % (K[a], K[b]) + F) for a in range(3) for b in range(3)] +
+            [ob('harness_stream_3_%s' % p, tier='thorough', timeout=3600, solver='kissat',
+                bounds='run of 3 tests (grouping decided by the symbolic names), pass/fail/ignored pattern %s (first test = last digit); ' % p + F) for p in ('000', '120')],
     }],
 }
